@@ -21,6 +21,10 @@ type ConcProgram struct {
 
 const concBucket = "bk"
 
+// concBucket2 holds the source of cross-bucket copies
+const concBucket2 = "b2"
+const concSrc2 = "src"
+
 var concNames = []string{"a", "b/c"}
 
 type concSys struct {
@@ -86,6 +90,7 @@ func (p *ConcProgram) MkSys(setupOut *[]string, baseGens *[]int64) func(y func(p
 		for _, n := range concNames {
 			names = append(names, [2]string{concBucket, n})
 		}
+		names = append(names, [2]string{concBucket2, concSrc2})
 		env.Freeze(names)
 		if baseGens != nil {
 			*baseGens = env.Gens()
@@ -100,7 +105,7 @@ func (p *ConcProgram) FinalReads() []*Op {
 	for _, n := range concNames {
 		out = append(out, &Op{Kind: "getmeta", B: concBucket, N: n}, &Op{Kind: "getmedia", B: concBucket, N: n})
 	}
-	out = append(out, &Op{Kind: "listall", B: concBucket, Max: 1000})
+	out = append(out, &Op{Kind: "getmeta", B: concBucket2, N: concSrc2}, &Op{Kind: "listall", B: concBucket, Max: 1000})
 	return out
 }
 
@@ -178,7 +183,13 @@ func GenConc(r *core.Rng, store string) *ConcProgram {
 				if nm == src {
 					src = concNames[0]
 				}
-				p.Ops = append(p.Ops, &Op{Kind: "copy", B: concBucket, N: src, B2: concBucket, N2: nm})
+				if r.Chance(1, 2) {
+					// from another bucket
+					p.Setup = append(p.Setup, &Op{Kind: "upload", B: concBucket2, N: concSrc2, Content: []byte("from-b2"), Meta: Meta{CT: "text/b2"}, Declared: "none", Proto: "multipart"})
+					p.Ops = append(p.Ops, &Op{Kind: "copy", B: concBucket2, N: concSrc2, B2: concBucket, N2: nm})
+				} else {
+					p.Ops = append(p.Ops, &Op{Kind: "copy", B: concBucket, N: src, B2: concBucket, N2: nm})
+				}
 			case 0:
 				p.Ops = append(p.Ops, &Op{Kind: "upload", B: concBucket, N: nm, Content: append(content(), byte('A'+i)), Meta: meta(), Declared: "none", Proto: "multipart", Conds: c})
 			case 1:
